@@ -169,7 +169,25 @@ def D13():
         print("D13", "DEFECT" if not r[0].should_close() else "OK", hdrs, "should_close() =", r[0].should_close())
 
 
-ALL = {"D1": D1, "D2": D2, "D3": D3, "D4": D4, "D5": D5_D6, "D6": D5_D6, "D7": D7, "D8": D8, "D9": D9, "D10": D10, "D11": D11, "D12": D12, "D13": D13}
+def D14():
+    import pwd
+    from gunicorn import util
+    if os.getuid() != 0:
+        print("D14 needs root")
+        return
+    u = pwd.getpwnam("nobody")
+    r, w = os.pipe()
+    pid = os.fork()
+    if pid == 0:
+        util.set_owner_process(u.pw_uid, u.pw_gid, initgroups=True)
+        os.write(w, repr(os.getresgid()).encode())
+        os._exit(0)
+    os.waitpid(pid, 0)
+    got = eval(os.read(r, 100).decode())
+    print("D14", "DEFECT" if got != (u.pw_gid,) * 3 else "OK", "resgid with initgroups =", got)
+
+
+ALL = {"D14": D14, "D1": D1, "D2": D2, "D3": D3, "D4": D4, "D5": D5_D6, "D6": D5_D6, "D7": D7, "D8": D8, "D9": D9, "D10": D10, "D11": D11, "D12": D12, "D13": D13}
 
 if __name__ == "__main__":
     want = sys.argv[1:] or ["D1", "D2", "D3", "D4", "D5", "D7", "D8", "D9", "D10", "D11", "D12", "D13"]
